@@ -52,6 +52,9 @@
   on_subscribe only; already a member → none
   UNSUBSCRIBE → on_unsubscribe then on_delete iff emptied;         C18_events_unsubscribe
   not a member / unknown id → ERROR only, no meta event, no change
+  a departing session's memberships are announced like an          C18_events_departure
+  UNSUBSCRIBE: per subscription on_unsubscribe, then on_delete
+  iff the subscription was deleted with it; nothing else
   subscription meta events never go to the causing session         C18_events_not_echoed
   REGISTER new → [on_create, on_register]; shared join →            C18_events_register
   [on_register]; refused → none, state unchanged; `wamp.*`
@@ -61,8 +64,9 @@
   kill procedures: exactly the selected sessions that are not      C18_kill
   already ending get the GOODBYE with the given reason/message;
   never the caller
-  add_testament stores under the caller, in the requested scope     C18_testament_add, C18_testament_flush
-  (default destroyed); flush_testaments empties exactly the scope
+  add_testament stores under the caller, in the requested scope     C18_testament_add, C18_testament_flush,
+  (default destroyed) — nothing for a caller that is no longer      C18_testament_add_unattached
+  attached; flush_testaments empties exactly the scope
 
   HISTORY.  An earlier version of this file proved `C18_sub_count_list_full_fails`: for a
   subscription without subscribers (a pre-created history subscription) `list_subscribers` answered
@@ -318,7 +322,9 @@ theorem C18_events_join (r : Realm) (k : SessKey) (isLocal : Bool) (details : Di
     the table removal queued (the `on_unregister` / `on_delete` publications of the dealer, in
     registration order), the testaments and LAST exactly one `wamp.session.on_leave`
     [session id, authid, authrole] — also for sessions ended by kill_all (F30 fixed); only the realm
-    shutdown announces nothing. -/
+    shutdown announces nothing.  (The broker's announcements of the departure — `on_unsubscribe`, then
+    `on_delete`, per subscription of the session — are EVENTs sent during the table removal, not tasks:
+    `C18_events_departure`.) -/
 theorem C18_events_leave (r : Realm) (k : SessKey) (s : Session) (mode : LeaveMode)
     (hf : r.clients.find? (fun c => c.key == k) = some s) :
     (mode.isShutdown = false →
@@ -351,7 +357,7 @@ theorem C18_events_subscribe (b : Broker) (k : SessKey) (req : Nat) (topic m : S
       b.syncSubscribe k req topic m p = (b, [⟨k, .subscribed req sub.id⟩], 0)) := by
   refine ⟨fun h => ?_, fun sub h hk => ?_, fun sub h hk => syncSubscribe_again h hk⟩
   · rw [syncSubscribe_create h]; exact ⟨rfl, rfl⟩
-  · rw [syncSubscribe_join h hk]; exact ⟨rfl, rfl⟩
+  · rw [syncSubscribe_join_sends h hk]; exact ⟨rfl, rfl⟩
 
 /-- UNSUBSCRIBE by a member: UNSUBSCRIBED, `on_unsubscribe`, then `on_delete` iff the subscription
     was emptied (and has no history store).  By a non-member or for an unknown id: one ERROR
@@ -367,6 +373,63 @@ theorem C18_events_unsubscribe (b : Broker) (k : SessKey) (req subId p : Nat) :
     ((∀ sub, b.findId subId = some sub → k ∉ sub.members) →
       b.syncUnsubscribe k req subId p = (b, [⟨k, errMsg tUNSUBSCRIBE req ErrNoSuchSubscription⟩], 0)) :=
   ⟨fun _ hf hk => (syncUnsubscribe_sends hf hk).1, fun h => syncUnsubscribe_err_state b k req subId p h⟩
+
+/-- DEPARTURE of a session from its subscriptions (`Broker.syncRemoveSession`, run when the session's handler
+    exits in any non-shutdown mode): announced like an UNSUBSCRIBE — `on_unsubscribe` BEFORE `on_delete`.
+    * One subscription (`Broker.removeMember`, one iteration of the loop): the broker is `afterDepart b k sub`
+      (subscription deleted iff `k` was its last member and it has no history store, otherwise `k` struck
+      from its members); the sends are exactly the `on_unsubscribe` EVENTs (publication id `pubBase + p`)
+      followed — iff the subscription was deleted — by the `on_delete` EVENTs (`pubBase + p + 1`), nothing
+      else; 2 resp. 1 publication ids are drawn.  An id naming no subscription: nothing at all.
+    * A session with no index entry (subscribed to nothing): broker unchanged, nothing announced.
+    * Otherwise (under `BrokerInv`) the ids the loop runs over are exactly the subscriptions `k` is a member
+      of, each once, and the sends of the whole departure are, subscription by subscription in index
+      order, that block (`Departure`: computed in the broker state reached so far, with consecutive
+      publication ids) — and nothing else. -/
+theorem C18_events_departure (b : Broker) (k : SessKey) (p : Nat) :
+    (∀ subId sub, b.findId subId = some sub →
+      b.removeMember k subId p =
+        (afterDepart b k sub,
+         (afterDepart b k sub).metaEvent MetaEventSubOnUnsubscribe (pubBase + p) k [sidVal k, .int subId] ++
+           (if (sub.members.filter (· != k)).isEmpty && !b.hasHist sub.id
+            then (afterDepart b k sub).metaEvent MetaEventSubOnDelete (pubBase + p + 1) k [sidVal k, .int subId]
+            else []),
+         if (sub.members.filter (· != k)).isEmpty && !b.hasHist sub.id then 2 else 1)) ∧
+    (∀ subId, b.findId subId = none → b.removeMember k subId p = (b, [], 0)) ∧
+    (idxGet b.index k = none → b.syncRemoveSession k p = (b, [], 0)) ∧
+    (BrokerInv b → ∀ ids, idxGet b.index k = some ids →
+      ids.Nodup ∧ (∀ id, id ∈ ids ↔ b.isMember k id) ∧
+      Departure k { b with index := idxDrop b.index k } p ids
+        (b.syncRemoveSession k p).1 (b.syncRemoveSession k p).2.1 (b.syncRemoveSession k p).2.2) := by
+  refine ⟨fun subId sub hf => ?_, fun _ hf => removeMember_unknown hf, syncRemoveSession_none p,
+    fun hb ids hg => syncRemoveSession_departure hb p hg⟩
+  have hid : sub.id = subId := (findId_some hf).2
+  rw [removeMember_sends hf, ← hid]
+  rfl
+
+-- the block one subscription contributes, spelled out (`Departure.member`)
+example (b : Broker) (k : SessKey) (sub : Sub) (p : Nat) :
+    departEvents b k sub p =
+      (afterDepart b k sub).metaEvent MetaEventSubOnUnsubscribe (pubBase + p) k [sidVal k, .int sub.id] ++
+        (if departDeletes b k sub
+         then (afterDepart b k sub).metaEvent MetaEventSubOnDelete (pubBase + p + 1) k [sidVal k, .int sub.id] else []) ∧
+    departCount b k sub = (if departDeletes b k sub then 2 else 1) ∧
+    departDeletes b k sub = ((sub.members.filter (· != k)).isEmpty && !b.hasHist sub.id) := ⟨rfl, rfl, rfl⟩
+
+-- non-vacuity: session 1 is the only member of subscription 1 ("t") and one of two members of subscription 2
+-- ("u"); session 3 observes both meta topics.  Its departure deletes 1 (on_unsubscribe, on_delete) and
+-- shrinks 2 (on_unsubscribe only): three EVENTs for the observer, in that order, publication ids p, p+1, p+2.
+example : let b0 : Broker :=
+      { subs := [{ id := 1, topic := "t", «match» := "", members := [1] },
+                 { id := 2, topic := "u", «match» := "", members := [1, 2] },
+                 { id := 3, topic := MetaEventSubOnUnsubscribe, «match» := "", members := [3] },
+                 { id := 4, topic := MetaEventSubOnDelete, «match» := "", members := [3] }],
+        nextSub := 4, index := [(1, [1, 2]), (2, [2]), (3, [3, 4])] }
+    ((b0.syncRemoveSession 1 0).2.1.map (fun x => (x.to, match x.msg with | .event sub pub _ _ _ => (sub, pub - pubBase) | _ => (0, 0)))) =
+      [(3, 3, 0), (3, 4, 1), (3, 3, 2)] ∧
+    (b0.syncRemoveSession 1 0).2.2 = 3 ∧
+    (b0.syncRemoveSession 1 0).1.subs.map (fun s => (s.id, s.members)) = [(2, [2]), (3, [3]), (4, [3])] := by
+  decide
 
 /-- Subscription meta events are sent to members of subscriptions matching the meta topic and
     never to the session that caused them. -/
@@ -518,13 +581,16 @@ example : makeGoodbye "com.example.bye" "go away" false = .goodbye [("message", 
 
 /-! ## Testaments -/
 
-/-- `add_testament [topic, args, kwargs]` by caller `c`: stored under the caller's session key, appended
-    to the requested scope (`destroyed` when no scope is given), the other scope and all other
-    sessions' buckets untouched; an unknown scope is refused with invalid_argument. -/
+/-- `add_testament [topic, args, kwargs]` by caller `c`: an unknown scope is refused with invalid_argument;
+    for a caller that is not (any longer) an attached client NOTHING is stored — same empty YIELD, state
+    unchanged (`attachedCaller r c`: `c` is the session id of a session in `clients`); otherwise the
+    testament is stored under the caller's session key, appended to the requested scope (`destroyed`
+    when no scope is given), the other scope and all other sessions' buckets untouched. -/
 theorem C18_testament_add (r : Realm) (req c : Nat) (details : Dict) (kw : Dict) (topic : String)
     (targs : List WVal) (tkw : Dict) (rest : List WVal) (hc : callerOf details = some c) :
     metaProc r MetaProcSessionAddTestament req details (.str topic :: .list targs :: .dict tkw :: rest) kw =
       if scopeOf kw != "destroyed" && scopeOf kw != "detached" then (mErr req ErrInvalidArgument, r)
+      else if !attachedCaller r c then (mYield req [], r)
       else
         (mYield req [],
          { r with testaments := (r.testaments.filter (fun x => x.1 != c - sidBase)) ++
@@ -536,6 +602,34 @@ theorem C18_testament_add (r : Realm) (req c : Nat) (details : Dict) (kw : Dict)
                     | none => []) })] }) := by
   rw [metaProc_addTestament, hc]
   rfl
+
+/-- which callers are attached: the caller id is a session id (`sidBase + key`) of a session in `clients` -/
+theorem C18_attachedCaller (r : Realm) (c : Nat) :
+    attachedCaller r c = true ↔ sidBase ≤ c ∧ ∃ s ∈ r.clients, s.key = c - sidBase :=
+  ⟨attachedCaller_true, fun h => by
+    unfold attachedCaller
+    have h1 : decide (sidBase ≤ c) = true := by simpa using h.1
+    have h2 : r.clients.any (fun s => s.key == c - sidBase) = true := by
+      obtain ⟨s, hs, hk⟩ := h.2
+      exact List.any_eq_true.mpr ⟨s, hs, by simpa using hk⟩
+    rw [h1, h2]; rfl⟩
+
+/-- `add_testament` by a caller that is not an attached client (F20: the session has left while its
+    invocation was pending): the answer is the empty YIELD as for a stored testament and the realm
+    state is UNCHANGED — in particular no bucket appears under the id of a session that does not exist. -/
+theorem C18_testament_add_unattached (r : Realm) (req c : Nat) (details : Dict) (kw : Dict) (topic : String)
+    (targs : List WVal) (tkw : Dict) (rest : List WVal) (hc : callerOf details = some c)
+    (hs : scopeOf kw = "destroyed" ∨ scopeOf kw = "detached")
+    (hna : c < sidBase ∨ ∀ s ∈ r.clients, s.key ≠ c - sidBase) :
+    metaProc r MetaProcSessionAddTestament req details (.str topic :: .list targs :: .dict tkw :: rest) kw =
+      (mYield req [], r) :=
+  metaProc_addTestament_unattached r req c details kw topic targs tkw rest hc hs hna
+
+-- non-vacuity: an attached caller's testament is stored; the same request from a session that has left is not
+example : let r0 : Realm := { clients := [{ key := 5, details := [], roles := [], isLocal := true }] }
+    (metaProc r0 MetaProcSessionAddTestament 7 [("caller", .int (sidBase + 5))] [.str "t", .list [], .dict []] []).2.testaments.map (·.1) = [5] ∧
+    (metaProc r0 MetaProcSessionAddTestament 7 [("caller", .int (sidBase + 6))] [.str "t", .list [], .dict []] []).2.testaments = [] := by
+  decide
 
 example : scopeOf [] = "destroyed" ∧ scopeOf [("scope", .str "detached")] = "detached" := by decide
 example (b : TBucket) (t : Testament) :
